@@ -13,7 +13,8 @@ TECHNIQUE = 'Lean 4 proof of functional correctness of the lookup model + bit-ex
 PROVED = ['tabulated key -> stored value; strictly between neighbours -> straight line through the two neighbours; above/below the range -> '
           'end segment iff extrapolation flag or key within tolerance, else IndexError (all sorted tables of length >= 2, any sign/spacing, all queries)',
           'tolerance clause = "within 0.1 %" for positive end keys; segments meet at nodes; monotone on a segment with monotone end values',
-          'shipped tables: keys strictly increasing, all water values > 0, dynamic and kinematic viscosity strictly decreasing in temperature']
+          'shipped tables: keys strictly increasing, all water values > 0, dynamic and kinematic viscosity strictly decreasing in temperature at the nodes',
+          'a table with increasing keys and decreasing values is strictly decreasing on its whole key range; hence the interpolated water viscosity (dynamic and kinematic) is strictly decreasing for every pair of temperatures in 0-100 C, not only at nodes']
 HYPOTHESES = []
 MONITORED = ['item assignment is refused (Python-level behaviour of __setitem__, exercised on the implementation every run)']
 RULE = ('random tables of 2-12 distinct keys (mixed sign, log/linear spacing, adjacent doubles), both extrapolation flags, queries: every key, '
